@@ -26,7 +26,7 @@ MANIFEST = dict(
     design="7/C02",
 )
 
-RULE = ("seeded tagged tables (0..45 rows, 1..4 data columns incl. padded strings, ints, floats, nulls) under every "
+RULE = ("seeded tagged tables (0..45 rows, 1..4 data columns incl. padded strings, ints, floats with exponent/nan/inf forms, booleans, nulls) under every "
         "pagination strategy, header/footnote/source variant, text_convert on/off; plus multi-section documents; "
         "non-trivial = ≥ 2 pages; distinct by (strategy, nrow, rows per page)")
 
@@ -38,7 +38,7 @@ def mutate_cells(rng, spec, info, convert_off):
     cols = spec["df"]["cols"]
     first = len(info["hier"])
     nd = info["ndata"]
-    kinds = ["tag"] + [rng.choice(["tag", "pad", "int", "float", "tag", "free"]) for _ in range(nd - 1)]
+    kinds = ["tag"] + [rng.choice(["tag", "pad", "int", "float", "tag", "free", "bool", "float"]) for _ in range(nd - 1)]
     for j, kind in enumerate(kinds):
         cj = first + j
         for i, r in enumerate(spec["df"]["rows"]):
@@ -51,7 +51,11 @@ def mutate_cells(rng, spec, info, convert_off):
             elif kind == "int":
                 r[cj] = rng.randint(-999, 99999)
             elif kind == "float":
-                r[cj] = rng.choice([0.5, 1.25, -3.75, 1e-3, 12345.678, 2.0, float(rng.randint(0, 50))])
+                # values whose str() differs from other renderings of the same number (exponents, nan, inf, -0.0)
+                r[cj] = rng.choice([0.5, 1.25, -3.75, 1e-3, 12345.678, 2.0, float(rng.randint(0, 50)), 1e-05, 3.2e-07,
+                                    2.5e+16, 1e+22, -0.0, float("nan"), float("inf"), 1 / 3])
+            elif kind == "bool":
+                r[cj] = rng.random() < 0.5
             elif kind == "free" and convert_off:
                 r[cj] = f"r{i}c{j}" + "".join(rng.choice(SAFE_OFF) for _ in range(rng.randint(0, 6)))
     info["kinds"] = kinds
